@@ -130,10 +130,11 @@ def _fixed0_values(p):
 
 
 def _fixedS_values(p, s):
-    q = D(1).scaleb(-s)  # 10^-s
-    mx = (D(10**p - 1)).scaleb(-s)
-    digits = "1234567890123456789012345678901234567890"
+    # built from digit strings / copy_negate only: Decimal *arithmetic* rounds to the context precision (28 digits)
+    q = D(f"1E-{s}")  # smallest magnitude at full scale
     ip = max(p - s, 0)
+    mx = D("9" * ip + "." + "9" * s) if ip else D("0." + "9" * s)  # largest magnitude: p nines
+    digits = "1234567890123456789012345678901234567890"
     canary = D((digits[:ip] or "0") + "." + digits[ip : ip + s])
     out = [
         ("zero", D(0)),
@@ -141,9 +142,9 @@ def _fixedS_values(p, s):
         ("neg_frac", D("-1.5")),
         ("full_scale_digits", canary),
         ("min_magnitude", q),
-        ("min_magnitude_neg", -q),
+        ("min_magnitude_neg", q.copy_negate()),
         ("max_magnitude", mx),
-        ("max_magnitude_neg", -mx),
+        ("max_magnitude_neg", mx.copy_negate()),
     ]
     if ip >= 8:
         out.insert(3, ("cents", D("12345678.91")))
@@ -678,6 +679,8 @@ def vclass(ts, shape, value) -> str:
         return "within_int64" if -(2**63) <= value <= I64_MAX else shape
     if f == "json":
         return "json_null" if shape == "json_null" else "json_" + JSON_KIND[shape]
+    if f == "binary":
+        return "empty" if value == b"" else "nonempty"
     return "any"
 
 
